@@ -1,6 +1,6 @@
 """Correspondence runs per layer: generate cases, run implementation workers and the extracted Coq model, compare.
 Each function takes the Ctx, a case budget and an optional projection (what the calling property observes)."""
-import re
+import re, os, json
 from tools import vlib, gen
 from tools.layers import base, scan as L_scan, parse as L_parse
 
@@ -246,6 +246,34 @@ def parsel(ctx, lists, label='parsel'):
         ctx.case(('parsel', tuple(t)), nontrivial=len(t) > 2, sample=dict(layer='parsel', tokens=' '.join(t)[:160], outcome=i[-1] if i else None, events=len(i) - 1))
     base.compare(ctx, label, lists, impl, model, describe=lambda t: dict(tokens=t))
     return lists, impl, model
+
+# ---------------------------------------------------------------------------------------------------------------
+# the tag dispatch of construct_object alone (Model/Dispatch.v, the model of the C01/C04 closure theorems)
+# ---------------------------------------------------------------------------------------------------------------
+from tools.layers import dispatchcorr as L_disp
+def dispatch(ctx, n, cases=None):
+    if not os.path.exists(os.path.join(vlib.COQ, 'Model', 'Dispatch.vo')):
+        rc, out = vlib.coq_make(['Model/Dispatch.vo'])
+        if rc != 0:
+            ctx.broken.append(('build:Dispatch', out[-1500:])); return
+    cases = cases if cases is not None else L_disp.gen_cases(ctx.rng, n)
+    obs = vlib.run_impl('dispatchcorr', cases)
+    ok_cases, ok_obs = [], []
+    for c, o in zip(cases, obs):
+        if isinstance(o, list) and len(o) == 2 and isinstance(o[0], str) and (o[1] is None or isinstance(o[1], str)):
+            ok_cases.append(c); ok_obs.append(o)
+        else:
+            ctx.corr_count('dispatch'); ctx.count('dispatch_impl_' + str(o)[:40])
+            ctx.disagreement('dispatch', c, dict(impl=str(o)[:300], model='exactly one handler is called'))
+    res, logs = L_disp.eval_cases(ok_cases, ok_obs, os.path.join(vlib.BUILD, 'cases', ctx.prop + '_dispatch'))
+    for l in logs[:1]: ctx.broken.append(('corr:dispatch', 'the Coq side failed to evaluate a case file: ' + l))
+    for c, o, r in zip(ok_cases, ok_obs, res):
+        ctx.corr_count('dispatch')
+        ctx.count('dispatch_' + ('exact' if o[0].startswith('c') and o[1] is None and [c['tag'], o[0]] in c['ctors'] else 'multi' if o[0].startswith('m') else 'none_exact' if o[0].startswith('c') and o[0][1:].isdigit() else 'kind_default'))
+        ctx.case(('dispatch', json.dumps(c, sort_keys=True)), nontrivial=bool(c['ctors'] or c['multi']), sample=dict(layer='dispatch', tag=c['tag'], ctors=len(c['ctors']), multi=len(c['multi']), called=o[0], suffix=o[1]))
+        if r is False:
+            ctx.disagreement('dispatch', c, dict(impl=o, model='Dispatch.dispatch / dispatch_suffix select a different handler or suffix'))
+    return cases
 
 INDICATORS = list("-:?[]{},#&*!|>'\"%a \n")
 def indicator_strings(maxlen):
